@@ -184,6 +184,23 @@ InvShape == \A isPath \in BOOLEAN : Shape(Enc(x, isPath), isPath) /\ Len(Enc(x, 
 InvConcat == \A isPath \in BOOLEAN : \A k \in 0..Len(x) :
                 Enc(x, isPath) = Enc(SubSeq(x, 1, k), isPath) \o Enc(SubSeq(x, k + 1, Len(x)), isPath)
 InvParamStricter == \A i \in 1..Len(Enc(x, FALSE)) : Enc(x, FALSE)[i] # 47
+(* the closed forms of Uri.tla against a left-to-right scanner *)
+RECURSIVE ScanDec(_, _, _, _)
+ScanDec(t, i, acc, lower) ==
+    IF i > Len(t) THEN [ok |-> TRUE, bytes |-> acc, lower |-> lower]
+    ELSE IF t[i] # 37 THEN ScanDec(t, i + 1, Append(acc, t[i]), lower)
+    ELSE IF i + 2 > Len(t) THEN [ok |-> FALSE, bytes |-> <<>>, lower |-> FALSE]
+    ELSE IF HexVal(t[i + 1]) < 0 \/ HexVal(t[i + 2]) < 0 THEN [ok |-> FALSE, bytes |-> <<>>, lower |-> FALSE]
+    ELSE ScanDec(t, i + 3, Append(acc, HexVal(t[i + 1]) * 16 + HexVal(t[i + 2])), lower \/ ~UpperHex(t[i + 1]) \/ ~UpperHex(t[i + 2]))
+RECURSIVE ScanShape(_, _, _)
+ScanShape(e, i, isPath) ==
+    IF i > Len(e) THEN TRUE
+    ELSE IF e[i] = 37 THEN (IF i + 2 <= Len(e) THEN UpperHex(e[i + 1]) /\ UpperHex(e[i + 2]) /\ ScanShape(e, i + 3, isPath) ELSE FALSE)
+    ELSE Plain(e[i], isPath) /\ ScanShape(e, i + 1, isPath)
+ScanEnc(s, isPath) == LET acc[i \in 0..Len(s)] == IF i = 0 THEN <<>> ELSE acc[i - 1] \o EncByte(s[i], isPath) IN acc[Len(s)]
+InvScanner == /\ Dec(x) = ScanDec(x, 1, <<>>, FALSE)
+              /\ \A isPath \in BOOLEAN : Shape(x, isPath) = ScanShape(x, 1, isPath) /\ Enc(x, isPath) = ScanEnc(x, isPath)
+                                          /\ Dec(Enc(x, isPath)) = ScanDec(ScanEnc(x, isPath), 1, <<>>, FALSE)
 (* x as text to decode *)
 InvDecText ==
     LET d == Dec(x)
